@@ -247,7 +247,7 @@ _DKEYS = ["app", "title", "url", "k", "$category", "$tags"]
 
 def _rules(rng):
     out = []
-    for _ in range(rng.randrange(0, 7)):
+    for _ in range(big_n(rng, rng.randrange(0, 7), p=0.01, sizes=(30, 101, 150))):     # now and then more rules than a regex has groups
         spec = {}
         if rng.random() < 0.95:
             spec["regex"] = rng.choice(_REGEX)
@@ -289,6 +289,10 @@ def gen_case(rng, ctx):
     evs = []
     for i in range(n):
         data = {k: rng.choice(_VALS) for k in rng.sample(_DKEYS, rng.randrange(0, 4))}
+        if data and rng.random() < 0.02:
+            # a very long value with the interesting part at its far end
+            k = rng.choice(sorted(data))
+            data[k] = rng.choice([" ", "x", "z\n", "ä"]) * rng.choice([300, 2000]) + str(data[k])
         if fn == "split_url_events":
             data = {k: v for k, v in data.items() if k != "url"}
             if rng.random() < 0.7:
